@@ -2,13 +2,13 @@ import UF.Proofs.HostRuleDispatch
 /-
   C18 — hosts-file lines yield exactly the listed names with the given address.
 
-  Model: UF/Model/HostRule.lean (`splitNextByWhitespace`, `newHostRule`, `HostRule.matches`,
+  Model: UF/Model/HostRule.lean (`splitNextByWhitespace`, `newHostRule`, `hostRuleMatches`,
   `isCommentLine`, `findCosmeticRuleMarker`, `newRuleKind`) mirrors rules/host.go, rules/rule.go
   and rules/cosmetic.go after the D11 repair.  Reference: UF/Spec/HostLine.lean (the
   blank-separated tokens of the text before the comment sign; the line grammar as text builders).
   `netip.ParseAddr` is an arbitrary oracle, `filterutil.IsDomainName` an arbitrary predicate.
 -/
-namespace UF
+namespace UF.H
 open Bytes
 
 /-- Iterating `splitNextByWhitespace` (the loop of `NewHostRule`) over a string that does not
@@ -111,8 +111,8 @@ theorem c18_comment_inert' (ext : Ext) (dn : Bytes → Bool) (pre c₁ c₂ : By
   cases newHostRule ext dn pre listID <;> rfl
 
 /-- A host rule matches a queried name iff it is one of its names. -/
-theorem host_match_iff (r : HostRule) (h : Bytes) : r.matches h = true ↔ h ∈ r.hostnames := by
-  unfold HostRule.matches
+theorem host_match_iff (r : HostRule) (h : Bytes) : hostRuleMatches r h = true ↔ h ∈ r.hostnames := by
+  unfold hostRuleMatches
   constructor
   · intro hm
     simp only [Bool.or_eq_true, Bool.and_eq_true, beq_iff_eq, List.any_eq_true] at hm
@@ -184,13 +184,6 @@ theorem c18_marker_first_chars : Facts.H.cosmeticMarkerFirstChars = [ch '#', ch 
 
 /-! Non-vacuity -/
 
-def c18Ext : Ext where
-  psl := fun _ => ([], false)
-  parseAddr := fun s =>
-    if s == lit "0.0.0.0" then some { is4 := true, val := 0 }
-    else if s == lit "::ffff:1.2.3.4" then some { is4 := false, val := 281470698652420 } else none
-  parsePrefix := fun _ => none
-  pat := fun _ _ _ => false
 
 /-- The two D11 replays, on the model of the repaired code. -/
 example : (newHostRule c18Ext (fun _ => true) (lit "0.0.0.0 example.org#note") 1).toOption.map (·.hostnames) =
@@ -198,6 +191,10 @@ example : (newHostRule c18Ext (fun _ => true) (lit "0.0.0.0 example.org#note") 1
 example : newRuleKind c18Ext (fun _ => true) (lit "0.0.0.0 example.org\t## note") 1 =
     .host { text := lit "0.0.0.0 example.org\t## note", listID := 1, hostnames := [lit "example.org"],
             ip := { is4 := true, val := 0 } } := by decide
+/-- The model distinguishes the repaired code from the pinned tree: the old comment strip yields
+    the name `example.or` on the D11 replay. -/
+example : (newHostRuleOld c18Ext (fun _ => true) (lit "0.0.0.0 example.org#note") 1).toOption.map (·.hostnames) =
+    some [lit "example.or"] := by decide
 /-- The hypotheses of `c18_dispatch` are satisfiable (two names, tab run, `##` comment after a blank). -/
 example : isHostToken (lit "::ffff:1.2.3.4") = true ∧
     goodPairs [(lit " \t", lit "a.example"), (lit "\t", lit "b.example")] = true ∧
@@ -208,4 +205,4 @@ example : isHostToken (lit "::ffff:1.2.3.4") = true ∧
 example : isCosmeticLine (lit "0.0.0.0 example.org##.banner") = true := by decide
 example : hostLineCarveOut (lit "0.0.0.0 example.org##.banner") = true := by decide
 
-end UF
+end UF.H
